@@ -18,6 +18,7 @@ FOCUS = {
     "C13": ["api", "api", "mixed"],
     "C15": ["hook", "hook", "deferred", "lifecycle"],
     "C06": ["deferred", "hook"],
+    "C14": ["at", "at", "mixed"],
 }
 COUNTS = {"quick": 160, "thorough": 3000}
 SIM = {"quick": 100, "thorough": 1200}
@@ -155,6 +156,8 @@ NONTRIVIAL = {
     "C15": lambda tr, rec: rec["cnt"]["closeHook"] > 0,
     "C06": lambda tr, rec: rec["cnt"]["defer"] > 0,
     "C10": lambda tr, rec: True,
+    "C14": lambda tr, rec: any(e["ev"] == "at" and e["in"]["acts"] and e["pst"]["active"]
+                               for e in tr["ev"]),
 }
 
 RULES = {
@@ -167,15 +170,23 @@ RULES = {
     "C15": "histories with prints ending inside and outside episodes; non-trivial = the "
            "after-print hook closed an open episode at least once",
     "C06": "plugin histories with deferred codes; non-trivial = at least one command deferred",
+    "C14": "plugin histories whose @-command action table comes from the plugin settings "
+           "(default, custom or empty table, applied by SettingsUpdated); non-trivial = a "
+           "configured action arrives while a print is active",
 }
 
 
-def run(prop, tier, seed):
+def run(prop, tier, seed, embed=False):
+    """
+    embed: the property's main check lives in another family (C14, C06: filter level); the
+    plugin-level histories are an additional layer whose result (status, coverage, violations)
+    is returned to be merged into that check's evidence instead of being written.
+    """
     if prop == "C10":
         from harness import c10
         return c10.run(tier, seed)
     started = time.time()
-    count = COUNTS[tier]
+    count = COUNTS[tier] // (2 if embed else 1)
     hists = []
     focuses = FOCUS[prop]
     for index in range(count):
@@ -185,7 +196,7 @@ def run(prop, tier, seed):
         # requests that differ from the registered geometry by a few 1e-4 mm (judged exactly)
         for index in range(count // 2):
             hists.append(gen_plugin.fine_history(seed * 1000003 + index * 7919 + 12))
-    mhists, mcs = model_guided(prop, tier, seed)
+    mhists, mcs = ([], []) if embed else model_guided(prop, tier, seed)
     hists = mhists + hists
     # record and validate in batches (thorough runs use thousands of histories)
     verdicts = []
@@ -265,6 +276,8 @@ def run(prop, tier, seed):
         ],
         "wall_s": round(time.time() - started, 2), "violations": nviol,
     }
+    if embed:
+        return status, coverage, nviol
     common.write_evidence(prop, evidence)
     return status
 
